@@ -173,7 +173,16 @@ func (g *sgen) stream(id int, faults bool) {
 	nops := 6 + g.r.Intn(30)
 	for i := 0; i < nops; i++ {
 		cid := g.pickLive()
-		switch g.r.Weighted([]int{30, 30, 8, 6, 3, 3, 8, 4, 6, 3, 4, 2}) {
+		switch g.r.Weighted([]int{30, 30, 8, 6, 3, 3, 8, 4, 6, 3, 4, 2, 2}) {
+		case 12:
+			// accept(2) fails: the errors the code declares retryable must have no visible effect (the connection is
+			// accepted by the next round), any other ends the loop
+			if faults && len(g.live) < 4 {
+				errno := []string{"EINTR", "EAGAIN", "ECONNRESET", "ECONNABORTED", "EINTR", "ECONNABORTED", "EMFILE"}[g.r.Intn(7)]
+				g.emit("inject accept L0 errno " + errno)
+				g.connect()
+				g.emit("poll")
+			}
 		case 10:
 			// a request through the stale handle of a closed connection, typically after its descriptor
 			// number has been handed to a newer connection
